@@ -581,6 +581,46 @@ var frozenDiv = map[string]string{
 	"qrcode/encoder.getNumDataBytesAndNumECBytesForBlockID:div#2": "numRSBlocks >= 1 (see div#0)",
 }
 
+// boundedBelow: on every path to b a test `x < d` (or `d > x`) held for a provably non-negative x, so d >= 1.
+// This is the shape of a loop body `for i := 0; i < d; i++ { ... % d ... }`.
+func boundedBelow(d ssa.Value, b *ssa.BasicBlock, facts map[ssa.Value]*intFact) bool {
+	for blk := b; blk != nil; blk = blk.Idom() {
+		if len(blk.Preds) != 1 {
+			continue
+		}
+		p := blk.Preds[0]
+		if len(p.Instrs) == 0 {
+			continue
+		}
+		ifi, ok := p.Instrs[len(p.Instrs)-1].(*ssa.If)
+		if !ok || p.Succs[0] == p.Succs[1] {
+			continue
+		}
+		cmp, ok := ifi.Cond.(*ssa.BinOp)
+		if !ok {
+			continue
+		}
+		onTrue := p.Succs[0] == blk
+		var x ssa.Value
+		switch {
+		case cmp.Op == token.LSS && cmp.Y == d && onTrue: // x < d
+			x = cmp.X
+		case cmp.Op == token.GTR && cmp.X == d && onTrue: // d > x
+			x = cmp.Y
+		case cmp.Op == token.GEQ && cmp.Y == d && !onTrue: // !(x >= d)
+			x = cmp.X
+		case cmp.Op == token.LEQ && cmp.X == d && !onTrue: // !(d <= x)
+			x = cmp.Y
+		default:
+			continue
+		}
+		if provablyNonNeg(x, facts, 0) {
+			return true
+		}
+	}
+	return false
+}
+
 func runEDIV(c *Ctx, r *Report, reach map[*ssa.Function]bool, scope string) {
 	r.Rule("E-DIV", "an integer division or remainder whose divisor is not a non-zero constant is dominated by a test excluding zero, or the divisor is structurally positive (sum/product of positive terms, len()+k, ...), or sits in the frozen table with its reason; functions reachable from the entry points", 5)
 	var fs []*ssa.Function
@@ -615,6 +655,10 @@ func runEDIV(c *Ctx, r *Report, reach map[*ssa.Function]bool, scope string) {
 				}
 				if provablyPositive(bo.Y, facts, 0) {
 					r.Pass("E-DIV", key, c.pos(bo.Pos()), "divisor structurally positive")
+					continue
+				}
+				if boundedBelow(bo.Y, b, facts) {
+					r.Pass("E-DIV", key, c.pos(bo.Pos()), "a dominating comparison keeps a non-negative value strictly below the divisor")
 					continue
 				}
 				if ex, isEx := bo.Y.(*ssa.Extract); isEx {
